@@ -6,8 +6,16 @@ int64_t w_fnv1a64(uint32_t which, uint8_t* data, uint64_t n, uint64_t seed, uint
 void harness(void) {
   uint8_t d[LEN + 1];
   in_bytes(d, LEN);
+#ifdef WHICH
+  uint32_t which = WHICH; /* cell: overload */
+#else
   uint32_t which = (uint32_t)in_range(0, 3);
+#endif
+#ifdef K
+  uint64_t k = K; /* cell: split point */
+#else
   uint64_t k = in_range(0, LEN);
+#endif
 #if BITS == 32
   uint32_t seed = in_u32();
   uint32_t eff = (which >= 2) ? 0x811C9DC5u : seed;
